@@ -38,7 +38,7 @@ Definition enc_broadcast (b : option broadcast) : list N :=
   end.
 
 Definition enc_response (r : response) : list N :=
-  enc_handshake (r_hs r) :: enc_hresp (r_resp r).
+  enc_handshake (r_hs r) :: enc_hresp (r_resp r) ++ [match r_unit r with Some t => t + 1 | None => 0 end].
 
 Definition enc_revent (e : revent) : list N :=
   match e with
